@@ -75,7 +75,7 @@ FUNCTION stmcase(p : INTEGER) : INTEGER;
   RETURN (3);
 END_FUNCTION;"""
 HEAD = ["SCHEMA ex;", "@@CONSTANTS@@", STATEMENTS, "FUNCTION f1(p : NUMBER) : NUMBER; RETURN (p); END_FUNCTION;", "ENTITY host;", "  a1 : INTEGER;",
-        "  a7 : NUMBER;", "  a3 : STRING;"]
+        "  a7 : NUMBER;", "  a3 : STRING;", "  a9 : LIST [2:?] OF INTEGER;"]
 
 
 def run_exppp(bdir, src, d, opts):
